@@ -803,8 +803,9 @@ def translate(src):
 BRIDGES = (("GenInterface.v", "InterfaceBridge.v"), ("GenConfigParser.v", "ConfigParserBridge.v"))
 
 
-def bridge(ctx):
-    """Tie (B) of C13: regenerate Gen/GenInterface.v and Gen/GenConfigParser.v from core.SRC and re-prove
+def bridge(ctx, only=None):
+    """Tie (B) of C13 (with only=("GenConfigParser.v",): the configuration-parser part alone, an obligation of every property
+    whose anchors lie in config_parser.py - C08, C16, C17): regenerate Gen/GenInterface.v and Gen/GenConfigParser.v from core.SRC and re-prove
     coq/Bridge/InterfaceBridge.v and coq/Bridge/ConfigParserBridge.v against them.  A TranslateError is the failed
     obligation gen:<file>; the bridge lemmas of that file are then listed as not discharged."""
     import re
@@ -815,6 +816,8 @@ def bridge(ctx):
     ok_all = True
     cov = {}
     for gen, br in BRIDGES:
+        if only and gen not in only:
+            continue
         names = re.findall(r"^\s*(?:Lemma|Theorem)\s+([\w']+)",
                            core.strip_coq_comments(open(os.path.join(core.COQ, "Bridge", br)).read()), re.M)
         text = texts[gen]
